@@ -79,7 +79,7 @@ pub fn configs(thorough: bool) -> Vec<Config> {
     z3.extend([txt("*.z.", 60, "t"), a("a.z.", 60, 1)]);
     v.push(Config { name: "Z3:wildcard/serial=1".into(), zone: z3, serial0: 1, serial_focus: false });
     // serial regimes: half-way and just below the wrap
-    for s in [(1u32 << 31) - 1, u32::MAX - 1] {
+    for s in [0, (1u32 << 31) - 1, u32::MAX - 1] {
         let mut z = base(s);
         z.push(a("a.z.", 60, 1));
         v.push(Config { name: format!("Z0+a:serial={s}"), zone: z, serial0: s, serial_focus: true });
